@@ -118,6 +118,11 @@ def run(rep, tier, props):
             _emit(rep, dict(sig='C08:unexpected-exception:%s:%s:%s' % (r['phase'], r['exc'].split(':')[0], ctag), prop='C08', what=r['exc'], **detail), props)
             continue
         stats['cones'][ctag] = stats['cones'].get(ctag, 0) + 1
+        for side, ok_ in sorted(r.get('bounds_sane', {}).items()):
+            if not ok_:
+                # a variable whose lower bound is +inf / upper bound is -inf / lb > ub: some interfaces ignore infinite bounds of
+                # either sign, others report infeasibility - whatever they do, this is not the bound vector of a dual program
+                _emit(rep, dict(sig='C08:malformed-bounds:%s:%s' % (side, ctag), prop='C08', what='the %s standard form has an empty or ill-formed bound interval on a variable' % side, **detail), props)
         for ir in r.get('interface_raised', []):
             _emit(rep, dict(sig='C11:' + ir, prop='C11', what='a solver interface raised instead of reporting that no solution is available', **detail), props)
         for k in job['decl']['pats']:
